@@ -7,8 +7,10 @@ META = dict(
     functions=raire_h.FUNCS,
     explanation="Same symbolic execution of compute_raire_assertions as C04 (agap = 0). On every path returning assertions, with D the largest "
                 "returned difficulty, the solver shows that the true assertions with difficulty strictly below D cannot exclude every "
-                "alternative winner (difficulty of an arbitrary assertion = the shipped function tabulated over its possible tallies).",
-    bounds={"quick": {"candidates": 3, "ballots": "2, 3", "hint": "none, one order"}, "thorough": {"candidates": 3, "ballots": "2, 3, 4; 4 candidates x 2 ballots; 2-3 ballot types with symbolic multiplicities 1..3", "hint": "none and every order"}},
+                "alternative winner (difficulty of an arbitrary assertion = the shipped function tabulated over its possible tallies); that the "
+                "returned set is itself sufficient; and that the difficulty each returned assertion carries is the shipped function of its own "
+                "tallies and the contest's ballot total (cells with two informal ballots: total above the number of CVRs).",
+    bounds={"quick": {"candidates": 3, "ballots": "2, 3", "hint": "none, one order"}, "thorough": {"candidates": 3, "ballots": "2, 3, 4; 4 candidates x 2 ballots; 4 candidates x 2 weighted ballot types (1..2) with hint [C,A,D,B]; 2-3 ballot types with symbolic multiplicities 1..3", "hint": "none and every order"}},
     outside=["more ballots/candidates than the bound", "agap > 0"],
     assumptions=["ballots are duplicate-free partial rankings", "the difficulty function is the shipped cp_estimate / bp_estimate"],
     trusted=["symx core, merge", "oracle formulas"],
